@@ -205,16 +205,18 @@ fn c16_copy_from() {
     let g = guard_probe();
     let before = m.0[g];
     let b = region(&mut m);
-    let sb = region(&mut s);
+    // the source region is SMALLER than the destination region (16 bytes at [32,48) of its array): a source range
+    // that would fit the destination but not the source must be refused as well
+    let sb = s.window(G, 16);
     let (off, soff, len): (i32, i32, i32) = (kani::any(), kani::any(), kani::any());
     b.copy_from(off, &sb, soff, len);
     assert!(m.0[g] == before, "C16: copy_from changed a byte outside the destination region");
     assert!(in_region(off, len as i64) && len >= 0, "C16: copy_from returned for a destination range outside the region");
-    assert!(in_region(soff, len as i64), "C16: copy_from returned for a source range outside the source region");
+    assert!(soff >= 0 && soff as i64 + len as i64 <= 16, "C16: copy_from returned for a source range outside the source region");
     let j: usize = kani::any();
     kani::assume(j < len as usize);
     assert!(m.0[G + off as usize + j] == s.0[G + soff as usize + j], "C16: copy_from copies the source bytes");
-    kani::cover!(len == 32, "[must] full-region copy returns");
+    kani::cover!(len == 16, "[must] full-source copy returns");
 }
 
 // @verif tier=quick loud=1 unwind=34
